@@ -120,7 +120,8 @@ def fs_case(draw):
                           min_size=0, max_size=6, unique=True))
     counts = [draw(st.integers(0, 4)) for _ in names]
     order = draw(st.permutations(list(range(sum(counts)))))
-    return {"names": names, "counts": counts, "order": list(order)}
+    seps = draw(st.lists(st.sampled_from((" ", " ", "  ", "\t", " \t ", "\n", "   ")), min_size=1, max_size=6))
+    return {"names": names, "counts": counts, "order": list(order), "seps": seps, "pad": draw(st.sampled_from(("", "", " ", "\t")))}
 
 
 def check_fs(case, rec):
@@ -136,6 +137,8 @@ def check_fs(case, rec):
             "mapping": DaughtersDict(dict(zip(names, counts))),
             "list": DaughtersDict(list(perm)),
             "string": DaughtersDict(" ".join(perm)),
+            "string-ws": DaughtersDict(case.get("pad", "") + "".join(n + (case.get("seps") or [" "])[i % len(case.get("seps") or [" "])] for i, n in enumerate(perm)).rstrip()
+                                       + case.get("pad", "")) if perm else DaughtersDict(""),
             "sorted-list": DaughtersDict(sorted(flat)),
         }
         if all(n in B._to_map for n in flat) and flat:
@@ -172,6 +175,8 @@ def canon_chain(d):
 def parser_case(draw):
     f = draw(G.table_set_file(3, 7, max_lines=1, with_aliases=False))
     for s in f["stmts"]:
+        if s["k"] == "decay":
+            s["lines"] = s["lines"][:1]  # single chains: every table has exactly one line
         if s["k"] == "decay" and not s["lines"]:
             s["lines"] = [{"bf": "1.0", "d": ["zz_leaf", "zz_leaf"], "photos": False, "model": "PHSP", "alias": False, "params": []}]
     return f
